@@ -3,6 +3,7 @@ package main
 // One blank import per engine package; each registers its checks in init().
 import (
 	_ "verif/harness/inproc"
+	_ "verif/harness/keylab"
 	_ "verif/harness/pdlab"
 	_ "verif/harness/placelab"
 	_ "verif/harness/procluster"
